@@ -100,24 +100,51 @@ def observe(T, env):
                 detail = detail or f"{name}: sentinel not passed through"
             outs.append(same)
     # repeatable: build again (memoised), and once more after clearing every cache: same behaviour on the probe
-    def behaviour(U2):
-        x = pv[0] if pv else "1"
-        try:
-            r = with_deadline(3, U2, x)
-            return "ok:" + (type(r).__name__)
-        except Exception as e:
-            return "raised:" + type(e).__name__
-    b0 = behaviour(U)
+    def shown(r):
+        if isinstance(r, Sentinel):
+            return "sentinel"
+        if isinstance(r, (list, tuple)):
+            return type(r).__name__ + "[" + ",".join(shown(x) for x in list(r)[:4]) + "]"
+        if isinstance(r, dict):
+            return "{" + ",".join(f"{k}:{shown(v)}" for k, v in list(r.items())[:4]) + "}"
+        if hasattr(r, "__dict__") and type(r).__module__.startswith("verif_"):
+            return type(r).__name__ + shown(vars(r))
+        return f"{type(r).__name__}:{r!r}"[:60]
+
+    def behaviour(U2, M2, C2):
+        outs = []
+        for x in ([pv[0]] if pv else []) + ["1", {"a": "1", "b": "2.5", "x": "3", "v": "4"}, ["5"]]:
+            try:
+                r = with_deadline(3, U2, x)
+                outs.append("u:" + shown(r))
+            except Exception as e:
+                outs.append("u-raised:" + type(e).__name__)
+                continue
+            try:
+                outs.append("m:" + shown(with_deadline(3, M2, r)))
+            except Exception as e:
+                outs.append("m-raised:" + type(e).__name__)
+            try:
+                outs.append("c:" + shown(with_deadline(3, C2.decode, with_deadline(3, C2.encode, r))))
+            except Exception as e:
+                outs.append("c-raised:" + type(e).__name__)
+        return "|".join(outs)
+    # repeatable: same behaviour (a) memoised, (b) rebuilt from cold caches in the same order,
+    # (c) rebuilt from cold caches in the opposite order (codec, marshaller, unmarshaller)
     try:
-        b1 = behaviour(typelib.unmarshaller(ann))
+        b0 = behaviour(U, M, C)
+        b1 = behaviour(typelib.unmarshaller(ann), typelib.marshaller(ann), typelib.codec(ann))
         clear_typelib_caches()
-        b2 = behaviour(typelib.unmarshaller(ann))
-        typelib.marshaller(ann); typelib.codec(ann)
+        U2 = typelib.unmarshaller(ann); M2 = typelib.marshaller(ann); C2 = typelib.codec(ann)
+        b2 = behaviour(U2, M2, C2)
+        clear_typelib_caches()
+        C3 = typelib.codec(ann); M3 = typelib.marshaller(ann); U3 = typelib.unmarshaller(ann)
+        b3 = behaviour(U3, M3, C3)
     except Exception as e:
-        b1 = b2 = "rebuild raised " + type(e).__name__
-    if not (b0 == b1 == b2):
+        b0 = "x"; b1 = b2 = b3 = "rebuild raised " + type(e).__name__
+    if not (b0 == b1 == b2 == b3):
         ev["repeatable"] = False
-        detail = detail or f"behaviour {b0} / rebuilt {b1} / after cache clear {b2}"
+        detail = detail or f"behaviour differs between builds: {b0[:80]} / {b1[:80]} / {b2[:80]} / {b3[:80]}"
     return ev, detail
 
 
